@@ -195,6 +195,43 @@ def run(tier, seed):
                 rep.violation("C15:batch-differs-from-elementwise:python-equal-values", "call_batch returned %r, individual calls return %r" % (outs["batched"][0], outs["elementwise"][0]), meta)
             if outs["batched"][1] != outs["elementwise"][1]:
                 rep.violation("C15:batch-executions-differ:python-equal-values", "the batch executed %d bodies, individual calls %d" % (outs["batched"][1], outs["elementwise"][1]), meta)
+        # (d) an element whose body computes fine but whose result cannot be stored: individually the call raises; in a
+        # batch the failure belongs in that element's slot, the other elements are evaluated and memoized as usual
+        stats["unstorable_batches"] = 0
+        for bi in range(6 if tier == "quick" else 60):
+            elems = [rng.choice([1, 2, 3, "x", "bad"]) for _ in range(rng.randint(2, 6))]
+            if "bad" not in elems:
+                elems[rng.randrange(len(elems))] = "bad"
+            kindb = rng.choice(["mem", "fs"])
+            outs = {}
+            for mode in ("batched", "elementwise"):
+                st = R.make_storage(kindb, scratch, "u%d%s" % (bi, mode[0]))
+                fnlib.set_env(m, scratch, {sigmod.CL: (st, None)})
+                tr = fnlib.Trace()
+                f = sigmod.tu.partial(b=1) if bi % 2 else sigmod.tu
+                res = []
+                if mode == "elementwise":
+                    for v in elems:
+                        try:
+                            res.append(("val", f(a=v)))
+                        except Exception as e:
+                            res.append(("exc", type(e).__name__))
+                else:
+                    try:
+                        for x in f.call_batch([{"a": v} for v in elems], raise_first_exception=False):
+                            res.append(("exc", type(x).__name__) if isinstance(x, Exception) else ("val", x))
+                    except Exception as e:
+                        res = "raised %s: %s" % (type(e).__name__, str(e)[:80])
+                memo = sorted({repr(v) for v in elems if f.memento(a=v) is not None})
+                outs[mode] = (res, memo, len([e for e in tr.events if e[0] == "body"]))
+                shutil.rmtree(os.path.join(scratch, "store-u%d%s" % (bi, mode[0])), ignore_errors=True)
+            total += 1
+            stats["unstorable_batches"] += 1
+            meta = {"elements": elems, "backend": kindb, "batched": outs["batched"], "elementwise": outs["elementwise"]}
+            if outs["batched"][0] != outs["elementwise"][0]:
+                rep.violation("C15:batch-differs-from-elementwise:unstorable-result", "call_batch gave %r, individual calls give %r" % (outs["batched"][0], outs["elementwise"][0]), meta)
+            elif outs["batched"][1] != outs["elementwise"][1]:
+                rep.violation("C15:store-differs-after-batch:unstorable-result", "memoized after the batch: %r, after individual calls: %r" % (outs["batched"][1], outs["elementwise"][1]), meta)
         try:
             res = C.run_coq_cases("c15", R.HEADER, terms, "run_case", shard=200,
                                   case_type="list (nat * ndef) * list (nat * nat) * (nat * nat) * (outcome * list nat * list key * list nat)")
